@@ -485,16 +485,20 @@ where
         feature_class: u64,
         only_baked: bool,
     ) -> (TrackDistanceOk<OA>, TrackDistanceErr<OA>) {
-        let tracks_vec = self.fetch_tracks(tracks);
-
-        let res = self.foreign_track_distances(tracks_vec.clone(), feature_class, only_baked);
+        let mut seen = std::collections::HashSet::new();
+        let tracks_vec = tracks
+            .iter()
+            .filter(|track_id| seen.insert(**track_id))
+            .filter_map(|track_id| self.get_store(*track_id as usize).get(track_id).cloned())
+            .collect::<Vec<_>>();
 
         #[cfg(similari_verif)]
-        crate::verif_hooks::sched_point("store.owned.sent", tracks_vec.len() as u64);
+        let tracks_count = tracks_vec.len() as u64;
 
-        for t in tracks_vec {
-            self.add_track(t).unwrap();
-        }
+        let res = self.foreign_track_distances(tracks_vec, feature_class, only_baked);
+
+        #[cfg(similari_verif)]
+        crate::verif_hooks::sched_point("store.owned.sent", tracks_count);
 
         res
     }
